@@ -27,11 +27,15 @@ C19_HARNESSES = [
 ]
 
 # exprgen: depth-1 over the whole alphabet with one throwing callable, then depth 2 with one harness run per root kind
-EXPR_D2_ROOTS = list(range(1, 28))
+EXPR_D2_ROOTS = list(range(1, 29))   # 28 = repeat_effect_until (unary, re-connects its child as an lvalue)
 EXPR_SEQ = [H("expr", "expr_d1")] + [H("expr", "expr_d2", args=[r, 0, 1], weight=(6 if r >= 18 else 1)) for r in EXPR_D2_ROOTS] + [H("expr", "expr_known_lvss")]
 # lighter sweeps: without the Reactive leaf mode / without stop events (the full sweep runs under C04 and C05)
 EXPR_SEQ_NR = [H("expr", "expr_d1")] + [H("expr", "expr_d2", args=[r, 0, 0], weight=(6 if r >= 18 else 1)) for r in EXPR_D2_ROOTS] + [H("expr", "expr_known_lvss")]
 EXPR_SEQ_Q = [H("expr", "expr_d1")] + [H("expr", "expr_d2", args=[r, 0, 0, 0], weight=(3 if r >= 18 else 1)) for r in EXPR_D2_ROOTS]
+# lvalue-connect mode: erased nodes connect their sender object as a non-const lvalue every time (a connect that steals
+# from its sender shows at the second connect: retry_when / repeat_effect_until re-connect their source)
+EXPR_LVALUE_Q = [H("expr", "expr_d1", args=[0, 1]), H("expr", "expr_d2", args=[27, 0, 0, 0, 0, 1], weight=2), H("expr", "expr_d2", args=[28, 0, 0, 0, 0, 1])]
+EXPR_LVALUE_T = [H("expr", "expr_d2", args=[r, 0, 0, 0, 0, 1], weight=(3 if r >= 18 else 1), thorough_only=True) for r in EXPR_D2_ROOTS if r not in (27, 28)]
 EXPR_SEQ_FAULTS = [H("expr", "expr_d2", args=[r, 1, 0], weight=6, thorough_only=True) for r in EXPR_D2_ROOTS if r >= 18]
 
 # connect-time faults (the n-th connect of one leaf throws) over the same trees, model-free exactly-once / no-leak oracle
@@ -143,7 +147,7 @@ CHECKS = {
         H("futures", "fut_v2", 3, 4, args=[1, 0]), H("scopes", "scope_v1", 3, 4, args=[0, 2])],
         "deadline": {"quick": 480, "thorough": 2400}},
     "C05": {"harnesses": [H("payload", "payload_adaptors")] + EXPR_SEQ + EXPR_SEQ_FAULTS + EXPR_CFAULT, "deadline": {"quick": 420, "thorough": 2400}},
-    "C12": {"harnesses": EXPR_SEQ_Q + [H("expr", "expr_d2", args=[r, 0, 1], weight=6, thorough_only=True) for r in EXPR_D2_ROOTS if r >= 18], "deadline": {"quick": 420, "thorough": 2400}},
+    "C12": {"harnesses": EXPR_SEQ_Q + EXPR_LVALUE_Q + EXPR_LVALUE_T + [H("expr", "expr_d2", args=[r, 0, 1], weight=6, thorough_only=True) for r in EXPR_D2_ROOTS if r >= 18], "deadline": {"quick": 420, "thorough": 2400}},
     "C06": {
         "harnesses": [
             H("sched", "sch_loop", 3, 4),
@@ -153,7 +157,7 @@ CHECKS = {
             H("sched", "sch_pool", 3, 4, args=[1, 1]),
             H("sched", "sch_pool", 2, 3, args=[2, 1], **{"cache-bits": 24}),
             H("sched", "sch_pool", 1, 2, args=[2, 2], thorough_only=True, **{"cache-bits": 24}),
-            H("sched", "sch_pool_stop", 3, 5),
+            H("sched", "sch_pool_stop", 3, 5), H("sched", "sch_pool_stop", 3, 5, args=[1, 1]), H("sched", "sch_pool_stop", 3, 4, args=[1, 2], **{"cache-bits": 24}),
             H("sched", "sch_newthread", 3, 4),
             H("sched", "sch_timed_plain", 2, 3),
             H("sched", "sch_tramp"),
@@ -183,6 +187,7 @@ CHECKS = {
         ] + [H("scopes", "scope_v1", 3, 4, args=[a, j]) for a in (0, 1) for j in (0, 1, 2)] + [
             H("scopes", "scope_v0", 3, 4, args=[0]),
             H("scopes", "scope_v0", 3, 4, args=[1]),
+            H("futures", "fut_ops", args=[5]), H("futures", "fut_ops", args=[6], thorough_only=True),
         ],
     },
     "C16": {
@@ -198,6 +203,8 @@ CHECKS = {
             H("events", "pass_call_accept", 3, 4, args=[0]),
             H("events", "pass_call_accept", 3, 4, args=[1]),
             H("cancel", "canc_evt2", 2, 3),
+            H("events", "evt_v2_ops", args=[6], **{"hang-timeout": 20, "max-failures": 20}), H("events", "evt_v1_ops", args=[6], **{"hang-timeout": 20, "max-failures": 20}),
+            H("events", "evt_v2_ops", args=[7], thorough_only=True, **{"hang-timeout": 20, "max-failures": 20}), H("events", "evt_v1_ops", args=[7], thorough_only=True, **{"hang-timeout": 20, "max-failures": 20}),
         ],
     },
     "C15": {
@@ -208,6 +215,7 @@ CHECKS = {
             H("mutexh", "mtx_v2_loop", 3, 4),
             H("mutexh", "mtx_fifo_v2", 3, 4),
             H("mutexh", "mtx_fifo_v1", 3, 5),
+            H("mutexh", "mtx_v2_ops", args=[7], **{"hang-timeout": 20, "max-failures": 20}), H("mutexh", "mtx_v2_ops", args=[8], thorough_only=True, **{"hang-timeout": 20, "max-failures": 20}),
         ],
     },
     "C03": {
@@ -229,7 +237,7 @@ CHECKS = {
 # instrumented, harness monitors not) at a lower preemption bound: a data race in the library on any explored schedule is a
 # violation.  This is what sees a memory order weakened below what the algorithm needs when the interleaving itself stays
 # correct under sequential consistency.
-SEQUENTIAL = {"fut_closed", "fut_faults", "det_terminate", "fut_ops", "sch_tramp", "tim_unsafe", "tim_clockmath", "ksim_conf", "uring_conf",
+SEQUENTIAL = {"mtx_v2_ops", "evt_v2_ops", "evt_v1_ops", "fut_closed", "fut_faults", "det_terminate", "fut_ops", "sch_tramp", "tim_unsafe", "tim_clockmath", "ksim_conf", "uring_conf",
               "bulk_findif", "bulk_sched", "expr_d1", "expr_d2", "expr_cfault", "expr_known_lvss", "expr_ctx", "payload_adaptors", "traits_corpus",
               "ctx_throwing_value", "strm_seq", "strm_sources", "coro_script", "coro_return_throws", "trace_chain", "any_storage", "any_unique_seq",
               "any_object_seq", "any_object_nt_seq"}
